@@ -321,15 +321,260 @@ def rule_no_mutation_through_alias(eng, rep, rule="C16-5.stored-arrays-are-not-m
     rep.require_count(rule, "fields assigned views of locals in Model methods", nstores, 1)
 
 
+def _loaded_names(e, selfn=None):
+    """local names loaded in e; `self.f` counts as the pseudo-name 'self.f', not as a use of `self`"""
+    out, skip = set(), set()
+    for n in ast.walk(e):
+        if selfn and isinstance(n, ast.Attribute) and isinstance(n.value, ast.Name) and n.value.id == selfn and isinstance(n.ctx, ast.Load):
+            out.add(selfn + "." + n.attr)
+            skip.add(id(n.value))
+    for n in ast.walk(e):
+        if isinstance(n, ast.Name) and isinstance(n.ctx, ast.Load) and id(n) not in skip:
+            out.add(n.id)
+    return out
+
+
+def _depends_on(cfg, expr, at_ast, hit, selfn=None, depth=5):
+    """Three-valued: does the value of `expr` (evaluated in statement at_ast) derive, on every path, from a sub-expression accepted by `hit`?
+    True / False / None (cannot tell)."""
+    if hit(expr):
+        return True
+    if depth <= 0:
+        return None
+    verdicts = []
+    for nm in sorted(_loaded_names(expr, selfn)):
+        if selfn and nm.startswith(selfn + "."):
+            field = nm.split(".", 1)[1]
+            here = cfg.cfg_node(at_ast)
+            vs = []
+            for n2, d in cfg.g.nodes(data=True):
+                st = d["ast"]
+                if d["kind"] == "stmt" and isinstance(st, ast.Assign) and n2 != here and \
+                        any(isinstance(t, ast.Attribute) and isinstance(t.value, ast.Name) and t.value.id == selfn and t.attr == field for t in st.targets):
+                    if cfg.path_avoiding(n2, here, []) is not None:
+                        vs.append((n2, _depends_on(cfg, st.value, st, hit, selfn, depth - 1)))
+            if not vs:
+                verdicts.append(False)
+            elif all(v is True for (_, v) in vs) and any(cfg.dominates(n2, here) for (n2, _) in vs):
+                verdicts.append(True)
+            elif all(v is False for (_, v) in vs):
+                verdicts.append(False)
+            else:
+                verdicts.append(None)
+            continue
+        try:
+            defs = cfg.defs_reaching(at_ast, nm)
+        except Exception:
+            return None
+        strong, weak_hit = [], False
+        for d in defs:
+            st = cfg.ast_of(d)
+            if cfg.kind(d) == "entry" or st is None:
+                strong.append(False)          # a parameter: not the solution
+                continue
+            if isinstance(st, ast.Assign):
+                is_strong = any(isinstance(t, ast.Name) and t.id == nm for t in st.targets) or \
+                    any(isinstance(t, (ast.Tuple, ast.List)) and nm in _stored_names(t) for t in st.targets)
+                v = _depends_on(cfg, st.value, st, hit, selfn, depth - 1)
+                if is_strong:
+                    strong.append(v)
+                elif v is True:
+                    weak_hit = True
+            elif isinstance(st, ast.AugAssign):
+                v = _depends_on(cfg, st.value, st, hit, selfn, depth - 1)
+                if v is True:
+                    weak_hit = True
+                else:
+                    strong.append(None)
+            elif cfg.kind(d) == "for":
+                strong.append(None)
+            else:
+                strong.append(False if isinstance(st, (ast.Import, ast.ImportFrom, ast.FunctionDef, ast.ClassDef)) else None)
+        if weak_hit or (strong and all(v is True for v in strong)):
+            verdicts.append(True)
+        elif not defs:
+            verdicts.append(False)            # a global / module name
+        elif any(v is None for v in strong):
+            verdicts.append(None)
+        else:
+            verdicts.append(False)
+    if any(v is True for v in verdicts):
+        return True
+    if any(v is None for v in verdicts):
+        return None
+    return False
+
+
+def _stored_names(t):
+    return set(n.id for n in ast.walk(t) if isinstance(n, ast.Name))
+
+
+def rule_solution_components(eng, rep, rule="C16-6.model-and-Lagrange-coefficients-are-rows-of-the-solved-system"):
+    """The interpolation system is W [c; g] = rhs with the column of ones first (Model.interpolation_matrix).  Whatever is fitted -- the model (c, J) or a Lagrange
+    polynomial (c_k, g_k) -- both parts must be rows of *one* solution of that system: row 0 the constant, rows 1: the gradient.  A part that does not derive from the
+    solution at all (a constant 'known' to be 0/1, a stored value) reproduces the data only when the system is square and consistent; for npt > n+1 (regression) it does not."""
+    solve_fid = eng.fn("model.Model.solve_geom_system").fid
+    im = eng.fn("model.Model.interpolation_matrix")
+    # writer side: which column holds the ones, where do the position columns start?
+    ret = [n for n in eng.prog.own_nodes(im) if isinstance(n, ast.Return) and n.value is not None]
+    wname = None
+    for r in ret:
+        v = r.value
+        first = v.elts[0] if isinstance(v, ast.Tuple) and v.elts else v
+        if isinstance(first, ast.Name):
+            wname = first.id
+    ones_col, pos_from = None, None
+    for n in eng.prog.own_nodes(im):
+        if isinstance(n, ast.Assign) and len(n.targets) == 1 and isinstance(n.targets[0], ast.Subscript) and isinstance(n.targets[0].value, ast.Name) and n.targets[0].value.id == wname:
+            sl = n.targets[0].slice
+            if isinstance(sl, ast.Tuple) and len(sl.elts) == 2 and isinstance(sl.elts[0], ast.Slice) and sl.elts[0].lower is None and sl.elts[0].upper is None:
+                col = sl.elts[1]
+                if isinstance(col, ast.Constant) and isinstance(col.value, int) and isinstance(n.value, ast.Constant) and n.value.value in (1, 1.0):
+                    ones_col = col.value
+                elif isinstance(col, ast.Slice) and isinstance(col.lower, ast.Constant) and col.upper is None and col.step is None:
+                    pos_from = col.lower.value
+    if ones_col is None or pos_from is None:
+        rep.unknown(rule, eng.where(im), "layout of the interpolation matrix not recognised (column of ones / first position column)")
+        return
+    rep.ok(rule, eng.where(im), "writer: column %d of the design matrix is the constant, columns %d: are the positions" % (ones_col, pos_from), nontrivial=False)
+
+    FIT_FIELDS = {"model_jac": "grad", "model_const": "const"}
+
+    def first_axis(sub):
+        sl = sub.slice
+        return sl.elts[0] if isinstance(sl, ast.Tuple) and sl.elts else sl
+
+    def role_of(sub):
+        ax = first_axis(sub)
+        if isinstance(ax, ast.Constant) and ax.value == ones_col:
+            return "const"
+        if isinstance(ax, ast.Slice) and ax.step is None and ax.upper is None and isinstance(ax.lower, ast.Constant) and ax.lower.value == pos_from:
+            return "grad"
+        return None
+
+    def reads(sol, role):
+        """predicate: the expression reads rows of the solution `sol` in the given role (None = any), or hands the whole solution on"""
+        def hit(e):
+            inside = set()
+            for n in ast.walk(e):
+                if isinstance(n, ast.Subscript) and isinstance(n.value, ast.Name) and n.value.id == sol:
+                    inside.add(id(n.value))
+                    if role is None or role_of(n) == role:
+                        return True
+            return any(isinstance(n, ast.Name) and n.id == sol and id(n) not in inside for n in ast.walk(e))
+        return hit
+
+    nreaders = 0
+    ncomponents = 0
+    for fid in sorted(eng.prog.functions):
+        fi = eng.prog.functions[fid]
+        sols = []
+        for n in eng.prog.own_nodes(fi):
+            if isinstance(n, ast.Assign) and isinstance(n.value, ast.Call) and solve_fid in set(t.fid for t in (eng.res.calls.get(id(n.value)).targets if eng.res.calls.get(id(n.value)) else [])):
+                if len(n.targets) == 1 and isinstance(n.targets[0], ast.Name):
+                    sols.append((n, n.targets[0].id))
+                else:
+                    rep.unknown(rule, eng.where(fi, n), "solution of the interpolation system is not bound to one local name")
+        if not sols:
+            continue
+        cfg = eng.cfg(fi)
+        selfn = fi.posparams[0] if fi.posparams else None
+        for (sn, sol) in sols:
+            # ---- readers index the solution by the writer's layout
+            for n in eng.prog.own_nodes(fi):
+                if isinstance(n, ast.Subscript) and isinstance(n.value, ast.Name) and n.value.id == sol and isinstance(n.ctx, ast.Load):
+                    try:
+                        if not any(cfg.ast_of(d) is sn for d in cfg.defs_reaching(_stmt_of(eng, fi, n), sol)):
+                            continue
+                    except Exception:
+                        pass
+                    nreaders += 1
+                    ax = first_axis(n)
+                    site = eng.where(fi, n)
+                    if isinstance(ax, ast.Constant) and isinstance(ax.value, int):
+                        if ax.value == ones_col:
+                            rep.ok(rule, site, "`%s` reads the constant row %d" % (short(n, 40), ones_col))
+                        else:
+                            rep.bad(rule, site, "%s|reads-row|%s" % (fid, ax.value), "`%s` reads row %d of the solution as one component, but the constant is row %d and rows %d: are the gradient"
+                                    % (short(n, 40), ax.value, ones_col, pos_from))
+                    elif isinstance(ax, ast.Slice) and ax.step is None and ax.upper is None and isinstance(ax.lower, ast.Constant):
+                        if ax.lower.value == pos_from:
+                            rep.ok(rule, site, "`%s` reads the gradient rows %d:" % (short(n, 40), pos_from))
+                        else:
+                            rep.bad(rule, site, "%s|reads-rows-from|%s" % (fid, ax.lower.value), "`%s` takes rows %s: of the solution; the gradient is rows %d: (row %d is the constant)"
+                                    % (short(n, 40), ax.lower.value, pos_from, ones_col))
+                    else:
+                        rep.unknown(rule, site, "`%s`: rows of the solution selected in a form this rule does not know" % short(n, 40))
+            # ---- every part of what the method hands back / stores as the fit comes from the solution
+            snode = cfg.cfg_node(sn)
+            if fi.qualname.split(".")[-1] == "lagrange_gradient":
+                for r in [x for x in eng.prog.own_nodes(fi) if isinstance(x, ast.Return) and x.value is not None]:
+                    rn = cfg.cfg_node(r)
+                    if cfg.path_avoiding(snode, rn, []) is None:
+                        continue
+                    if not any(cfg.ast_of(d) is sn for d in cfg.defs_reaching(r, sol)):
+                        continue
+                    elts = r.value.elts if isinstance(r.value, ast.Tuple) else [r.value]
+                    for i, e in enumerate(elts):
+                        ncomponents += 1
+                        v = _depends_on(cfg, e, r, reads(sol, None), selfn)
+                        site = eng.where(fi, r)
+                        if v is True:
+                            rep.ok(rule, site, "returned component %d `%s` derives from the solution `%s`" % (i, short(e, 30), sol))
+                        elif v is False:
+                            rep.bad(rule, site, "%s|component-not-from-the-solution|%d" % (fid, i),
+                                    "component %d (`%s`) of the returned Lagrange polynomial does not derive from the solution `%s` of the interpolation system: "
+                                    "for npt > n+1 the polynomials are least-squares fits, whose value at the base point is neither 0 nor 1" % (i, short(e, 30), sol))
+                        else:
+                            rep.unknown(rule, site, "cannot tell whether returned component %d `%s` derives from the solution" % (i, short(e, 30)))
+            fit_fields = tuple(FIT_FIELDS)
+            stores = {}
+            for n2, d in cfg.g.nodes(data=True):
+                st = d["ast"]
+                if d["kind"] == "stmt" and isinstance(st, ast.Assign):
+                    for t in st.targets:
+                        if isinstance(t, ast.Attribute) and isinstance(t.value, ast.Name) and t.value.id == selfn and t.attr in fit_fields:
+                            stores.setdefault(t.attr, []).append((n2, st))
+            for field, lst in sorted(stores.items()):
+                others = [n2 for (n2, _) in lst]
+                for (n2, st) in lst:
+                    if cfg.path_avoiding(snode, n2, [o for o in others if o != n2]) is None:
+                        continue    # a later re-write (e.g. the rank repair rebuilds J from its own SVD) or not after the solve
+                    ncomponents += 1
+                    v = _depends_on(cfg, st.value, st, reads(sol, FIT_FIELDS[field]), selfn)
+                    site = eng.where(fi, st)
+                    if v is True:
+                        rep.ok(rule, site, "self.%s is computed from the %s of the solution `%s`" % (field, "constant row" if FIT_FIELDS[field] == "const" else "gradient rows", sol))
+                    elif v is False:
+                        rep.bad(rule, site, "%s|fit-not-from-the-solution|%s" % (fid, field), "`%s`: the first value given to self.%s after solving the interpolation system does not derive from the %s of its solution `%s`"
+                                % (short(st, 60), field, "constant row" if FIT_FIELDS[field] == "const" else "gradient rows", sol))
+                    else:
+                        rep.unknown(rule, site, "cannot tell whether `%s` derives from the solution" % short(st, 60))
+    rep.require_count(rule, "row selections on a solution of the interpolation system", nreaders, 4)
+    rep.require_count(rule, "fitted components traced to the solution", ncomponents, 4)
+
+
+def _stmt_of(eng, fi, node):
+    """innermost statement of fi that contains node"""
+    best = None
+    for st in eng.prog.own_nodes(fi):
+        if isinstance(st, ast.stmt) and not isinstance(st, (ast.FunctionDef, ast.If, ast.For, ast.While, ast.With, ast.Try)):
+            if any(sub is node for sub in ast.walk(st)):
+                best = st
+    return best
+
+
 def run(eng, rep):
     rep.explain("C16 (structural clauses): the read-set of Model.interpolation_matrix is computed over the call graph; a typestate data-flow over every Model method "
                 "proves that each write to a member of it is followed by factorisation_current = False on every path to the exit, and that only "
                 "factorise_geom_system validates the cache, after recomputing Q, R from a fresh matrix (T3); no Model field is written outside the class (T1); "
                 "affine normal forms show model_const + J.(s - xbase) and model_const + J.points[k] invariant under shift_base (T7), whose argument is xopt() "
                 "and across which live relative locals are re-based.")
-    rep.explain('Also decided: no stored Model array is modified in place through a local it is a view of (T11, C16-5).')
+    rep.explain('Also decided: no stored Model array is modified in place through a local it is a view of (T11, C16-5); the fitted model and every Lagrange polynomial take both their '
+                'constant and their gradient from rows of one solution of the interpolation system, indexed by the layout interpolation_matrix writes (C16-6).')
     rep.not_decided += ["interpolation / least-squares / Lagrange identities and their conditioning-scaled tolerances (numerical)"]
     rule_invalidation(eng, rep)
     rule_ownership(eng, rep)
     rule_shift_affine(eng, rep)
     rule_no_mutation_through_alias(eng, rep)
+    rule_solution_components(eng, rep)
